@@ -11,6 +11,34 @@ type verifCluster struct {
 	sa            *models.ShardAssignment
 	alive         []bool
 	m             *stateManager
+	// the placement as it was assigned (deep copy): elections and node events never change it
+	placed map[models.ShardID][]models.NodeID
+}
+
+func (c *verifCluster) rememberPlacement() {
+	c.placed = map[models.ShardID][]models.NodeID{}
+	for id, r := range c.sa.Shards {
+		c.placed[id] = append([]models.NodeID{}, r.Replicas...)
+	}
+}
+
+func (c *verifCluster) placementUnchanged(label string) {
+	for id, want := range c.placed {
+		got := c.sa.Shards[id].Replicas
+		same := len(got) == len(want)
+		for i := 0; same && i < len(want); i++ {
+			same = got[i] == want[i]
+		}
+		verifAssert(same, label+": a shard keeps exactly the replicas it was assigned")
+		st, ok := c.state.ShardStates["db"][id]
+		if ok {
+			same = len(st.Replica.Replicas) == len(want)
+			for i := 0; same && i < len(want); i++ {
+				same = st.Replica.Replicas[i] == want[i]
+			}
+			verifAssert(same, label+": the reported replicas of a shard are the assigned ones")
+		}
+	}
 }
 
 func verifStateManager() *stateManager {
@@ -80,6 +108,7 @@ func verifArbitraryCluster(n, shards, rf int) *verifCluster {
 	}
 	c.state.ShardStates["db"] = states
 	verifAssume(c.invariant(false, ""))
+	c.rememberPlacement()
 	return c
 }
 
@@ -100,12 +129,14 @@ func verifC18StateStep() {
 		c.state.NodeOffline(models.NodeID(node))
 		c.m.onNodeFailure(c.state, models.NodeID(node))
 		c.invariant(true, "node down")
+		c.placementUnchanged("node down")
 	} else {
 		c.alive[node] = true
 		sn := models.StatefulNode{ID: models.NodeID(node)}
 		c.state.NodeOnline(sn)
 		c.m.onNodeStartup(c.state, sn)
 		c.invariant(true, "node up")
+		c.placementUnchanged("node up")
 	}
 	verifReach("end")
 }
@@ -135,8 +166,10 @@ func verifC18StateInit() {
 			c.state.NodeOnline(models.StatefulNode{ID: models.NodeID(i)})
 		}
 	}
+	c.rememberPlacement()
 	c.m.initializeShardState(&verifStorageCluster{state: c.state}, sa)
 	c.invariant(true, "create database")
+	c.placementUnchanged("create database")
 	// drop database removes its shards from the report
 	c.state.DropDatabase("db")
 	verifAssert(len(c.state.ShardStates) == 0 && len(c.state.ShardAssignments) == 0, "drop database removes the database's shards")
@@ -177,10 +210,12 @@ func verifC18StateGrow() {
 	extra := 1 + verifChoose("extraShards", 2)
 	cfg.NumOfShard = shards + extra
 	verifAssert(ModifyShardAssignment(ids, cfg, grown, verifChoose("startIndex2", n), models.ShardID(shards)) == nil, "growth succeeds")
-	c.m.initializeShardState(sc, grown)
 	c.sa = grown
 	c.shards = shards + extra
+	c.rememberPlacement()
+	c.m.initializeShardState(sc, grown)
 	c.invariant(true, "after growth")
+	c.placementUnchanged("after growth")
 	// one or two node events
 	for ev := 0; ev < 2; ev++ {
 		node := 1 + verifChoose("eventNode", n)
@@ -189,12 +224,14 @@ func verifC18StateGrow() {
 			c.state.NodeOffline(models.NodeID(node))
 			c.m.onNodeFailure(c.state, models.NodeID(node))
 			c.invariant(true, "node down after growth")
+			c.placementUnchanged("node down after growth")
 		} else {
 			c.alive[node] = true
 			sn := models.StatefulNode{ID: models.NodeID(node)}
 			c.state.NodeOnline(sn)
 			c.m.onNodeStartup(c.state, sn)
 			c.invariant(true, "node up after growth")
+			c.placementUnchanged("node up after growth")
 		}
 	}
 	verifReach("end")
